@@ -172,13 +172,30 @@ Proof.
   rewrite Hnth in Hstep. injection Hstep as <- <-.
   exists i, mb, (mailbox_flags mb). split; [reflexivity|]. split; [assumption|].
   split.
-  { intro Hk. unfold sel_of, set_sel, with_sel. cbn [st_sel].
+  { intro Hk. unfold sel_of, set_ro, with_ro, set_sel, with_sel. cbn [st_sel].
     rewrite nth_error_update_nth_same by assumption.
     destruct (nth_error (st_sel s) k) eqn:E; [reflexivity|].
     apply nth_error_None in E. lia. }
   split; [reflexivity|]. split; [reflexivity|]. split.
   { cbn [okc r_data]. apply in_or_app. right. left. reflexivity. }
   intro f. unfold mailbox_flags. rewrite mailbox_flags_In. cbn [In]. intuition.
+Qed.
+
+(* SELECT opens the mailbox read-write, EXAMINE read-only (UserSession.Select: options.ReadOnly) *)
+Theorem select_records_readonly : forall s k n ex s' r,
+  step s (k, CSelect n ex) = Some (s', r) -> r_class r = 0 ->
+  (k < length (st_ro s))%nat -> ro_of s' k = ex.
+Proof.
+  intros s k n ex s' r Hstep Hcl Hk. cbn [step] in Hstep.
+  destruct (lookup n (st_names s)) as [i|] eqn:El.
+  2:{ injection Hstep as <- <-. discriminate. }
+  destruct (nth_error (st_heap s) i) as [mb|] eqn:Hnth.
+  2:{ injection Hstep as <- <-. discriminate. }
+  injection Hstep as <- <-.
+  unfold ro_of, set_ro, with_ro, set_sel, with_sel. cbn [st_ro].
+  rewrite nth_error_update_nth_same by assumption.
+  destruct (nth_error (st_ro s) k) eqn:E; [reflexivity|].
+  apply nth_error_None in E. lia.
 Qed.
 
 (* ---- LIST ---- *)
